@@ -84,7 +84,7 @@ def partitions(tier, seed):
     ccs = sp.cc_list()
     if quick:
         core = [c for c in ccs if sp.cc_name(c) in CORE]
-        ccs = sorted(set(sp.rotate(ccs, seed + 3, 14) + core))
+        ccs = sorted(set(sp.rotate(ccs, seed + 3, 9) + core))
     for cc in ccs:
         for label, data in G.commands(cc):
             parts.extend(shape_parts("C01", PROP, sp.cmd_key(), "%s-%s" % (sp.cc_name(cc), label), data, enum_leaves=not quick))
